@@ -481,6 +481,53 @@ theorem Inv_findInDb (cfg : Cfg) (s : Sid) (o : Obj) (a : Attr) (v : Val) (σ1 :
       · exact h2
   · exact h
 
+theorem Inv_markOne (cfg : Cfg) (σ : State) (s : Sid) (o : Obj) (a : Attr) (h : Inv cfg σ) : Inv cfg (markOne cfg σ s o a) := by
+  unfold markOne
+  simp only
+  split
+  · rename_i hv
+    obtain ⟨v, hv'⟩ := Option.isSome_iff_exists.mp hv
+    refine Inv_withSess cfg σ s _ h ?_ (by rfl)
+    have hs := h.1 s
+    refine ⟨fun o' => ?_, hs.2.1, ?_⟩
+    · by_cases ho : o' = o
+      · subst ho; simpa using ObjInv_read cfg _ a v hv' (hs.1 o')
+      · simpa [upd_other _ _ _ _ ho] using hs.1 o'
+    · intro o' b hl
+      have := hs.2.2 o' b hl
+      by_cases ho : o' = o
+      · subst ho
+        simp only [upd_same]
+        unfold ObjSt.read; split <;> simpa using this
+      · simpa [upd_other _ _ _ _ ho] using this
+  · exact h
+
+theorem Inv_markRows (cfg : Cfg) (s : Sid) (a : Attr) (l : List Obj) : ∀ σ, Inv cfg σ → Inv cfg (markRows cfg s a l σ) := by
+  induction l with
+  | nil => intro σ h; exact h
+  | cons o r ih => intro σ h; exact ih _ (Inv_markOne cfg σ s o a h)
+
+theorem Inv_fetchRows (cfg : Cfg) (s : Sid) (as : List Attr) (fu : Bool) (l : List Obj) :
+    ∀ σ σ2, fetchRows s as fu l σ = some σ2 → Inv cfg σ → Inv cfg σ2 := by
+  induction l with
+  | nil => intro σ σ2 hf h; simp [fetchRows] at hf; subst hf; exact h
+  | cons o r ih =>
+    intro σ σ2 hf h
+    simp only [fetchRows] at hf
+    split at hf
+    · simp at hf
+    · rename_i σ' hf1
+      exact ih σ' σ2 hf (Inv_fetchRow cfg σ σ' s o as fu hf1 h)
+
+theorem Inv_selectInDb (cfg : Cfg) (s : Sid) (a : Attr) (v : Val) (fu : Bool) (σ1 : State) (h : Inv cfg σ1) :
+    Inv cfg (selectInDb cfg s a v fu σ1).1 := by
+  unfold selectInDb
+  simp only
+  split
+  · exact Inv_failSess cfg σ1 s h
+  · rename_i σ2 hf
+    exact Inv_markRows cfg s a _ σ2 (Inv_fetchRows cfg s _ fu _ σ1 σ2 hf h)
+
 theorem Inv_step (cfg : Cfg) (σ : State) (s : Sid) (act : Action) (h : Inv cfg σ) : Inv cfg (step cfg σ s act).1 := by
   cases act with
   | get o fu =>
@@ -515,6 +562,9 @@ theorem Inv_step (cfg : Cfg) (σ : State) (s : Sid) (act : Action) (h : Inv cfg 
       · exact Inv_getAttr cfg _ s o a _ hw
       · exact Inv_query cfg _ s false _ (Inv_loadAttr cfg s o a _) hw
     · exact Inv_query cfg _ s false _ (Inv_findInDb cfg s o a v) hw
+  | select a v fu =>
+    simp only [step]
+    exact Inv_query cfg _ s fu _ (Inv_selectInDb cfg s a v fu) (Inv_wake cfg σ s h)
   | write o a v =>
     simp only [step]
     split
@@ -819,6 +869,36 @@ theorem findInDb_facts (cfg : Cfg) (s : Sid) (o : Obj) (a : Attr) (v : Val) (σ1
       · exact ⟨rfl, hst, fun h => by simp [Res.failed] at h⟩
   · exact ⟨rfl, rfl, fun h => by simp [Res.failed] at h⟩
 
+theorem markOne_store (cfg : Cfg) (σ : State) (s : Sid) (o : Obj) (a : Attr) : (markOne cfg σ s o a).store = σ.store := by
+  unfold markOne; simp only; split <;> rfl
+
+theorem markRows_store (cfg : Cfg) (s : Sid) (a : Attr) (l : List Obj) : ∀ σ, (markRows cfg s a l σ).store = σ.store := by
+  induction l with
+  | nil => intro σ; rfl
+  | cons o r ih => intro σ; exact (ih _).trans (markOne_store cfg σ s o a)
+
+theorem fetchRows_store (s : Sid) (as : List Attr) (fu : Bool) (l : List Obj) :
+    ∀ σ σ2, fetchRows s as fu l σ = some σ2 → σ2.store = σ.store := by
+  induction l with
+  | nil => intro σ σ2 hf; simp [fetchRows] at hf; subst hf; rfl
+  | cons o r ih =>
+    intro σ σ2 hf
+    simp only [fetchRows] at hf
+    split at hf
+    · simp at hf
+    · rename_i σ' hf1
+      exact (ih σ' σ2 hf).trans (fetchRow_store' σ σ' s o as fu hf1)
+
+theorem selectInDb_facts (cfg : Cfg) (s : Sid) (a : Attr) (v : Val) (fu : Bool) (σ1 : State) :
+    (selectInDb cfg s a v fu σ1).2.upd = none ∧ (selectInDb cfg s a v fu σ1).1.store = σ1.store
+    ∧ ((selectInDb cfg s a v fu σ1).2.res.failed = true → (selectInDb cfg s a v fu σ1).1.sess s = Sess.fresh cfg s) := by
+  unfold selectInDb
+  simp only
+  split
+  · exact ⟨rfl, rfl, fun _ => by simp [failSess]⟩
+  · rename_i σ2 hf
+    exact ⟨rfl, (markRows_store cfg s a _ σ2).trans (fetchRows_store s _ fu _ σ1 σ2 hf), fun h => by simp [Res.failed] at h⟩
+
 theorem step_applied (cfg : Cfg) (σ : State) (s : Sid) (act : Action) (o : Obj)
     (h : (step cfg σ s act).2.upd = some o) : (∃ rest, (σ.sess s).toSave = o :: rest) ∧ WhereHeld cfg σ s o := by
   cases act with
@@ -851,6 +931,10 @@ theorem step_applied (cfg : Cfg) (σ : State) (s : Sid) (act : Action) (o : Obj)
       · rw [(getAttr_facts cfg _ s o' a _).1] at h; simp at h
       · exact hwk _ (fun σ1 => (loadAttr_facts cfg s o' a _ σ1).1) h
     · exact hwk _ (fun σ1 => (findInDb_facts cfg s o' a v σ1).1) h
+  | select a v fu =>
+    simp only [step] at h
+    have := query_applied cfg (wake σ s) s fu _ o (fun σ1 => (selectInDb_facts cfg s a v fu σ1).1) h
+    exact ⟨by simpa [(wake_sess σ s).2.2.2.1] using this.1, WhereHeld_wake cfg σ s o this.2⟩
   | write o' a v =>
     simp only [step] at h
     split at h <;> simp [okOut] at h
@@ -941,6 +1025,10 @@ theorem step_store (cfg : Cfg) (σ : State) (s : Sid) (act : Action) :
       · exact (getAttr_facts cfg _ s o a _).2.1.trans hw
       · exact (query_store cfg _ s false _ (fun σ1 => (loadAttr_facts cfg s o a _ σ1).2.1)).trans hw
     · exact (query_store cfg _ s false _ (fun σ1 => (findInDb_facts cfg s o a v σ1).2.1)).trans hw
+  | select a v fu =>
+    left
+    simp only [step]
+    exact (query_store cfg _ s fu _ (fun σ1 => (selectInDb_facts cfg s a v fu σ1).2.1)).trans (wake_sess σ s).2.2.2.2
   | write o a v =>
     left
     simp only [step]
@@ -1040,6 +1128,9 @@ theorem step_failed (cfg : Cfg) (σ : State) (s : Sid) (act : Action) (h : (step
     · rename_i hc
       simp only [hc] at h
       exact query_failed cfg _ s false _ (fun σ1 => (findInDb_facts cfg s o a v σ1).2.2) h
+  | select a v fu =>
+    simp only [step] at h ⊢
+    exact query_failed cfg _ s fu _ (fun σ1 => (selectInDb_facts cfg s a v fu σ1).2.2) h
   | write o a v =>
     simp only [step] at h
     split at h <;> simp [okOut, Res.failed] at h
@@ -1248,11 +1339,158 @@ theorem find_obs (cfg : Cfg) (σ : State) (s : Sid) (o : Obj) (a : Attr) (v : Va
       · rename_i σ2 hf
         simp only [hf] at h
         have hn := fetchRow_new σ1 σ2 s o _ false a hf hp1
-        have hmem : a ∈ cfg.attrs.filter (fun b => !cfg.lazy b || b == a) := List.mem_filter.mpr ⟨ha, by simp⟩
+        have hmem : a ∈ selAttrs cfg a := List.mem_filter.mpr ⟨ha, by simp⟩
         have hval := hn.2 hmem
         simp only [hval, Option.isSome_some, if_true] at h ⊢
         obtain ⟨x, hx, _, hobs⟩ := getAttr_obs' cfg σ2 s o a _ 1 h hn.1 hvol
         rw [hobs, ← hx, hval, hview]
     · simp [hview] at h
+
+/-! ### objects returned by a query with a criterion on `a`: the criterion value is the recorded observation -/
+
+theorem dbSet_val (os os' : ObjSt) (row : Attr → Val) (as : List Attr) (a : Attr)
+    (h : os.dbSet row as = some os') (ha : a ∈ as) (hw : os.wbits a = false) (hv : os.vals a = os.dbvals a) :
+    os'.vals a = some (row a) ∧ os'.wbits a = false := by
+  unfold ObjSt.dbSet at h
+  by_cases hany : (changed os row as).any os.rbits = true
+  · simp [hany] at h
+  · simp only [hany] at h
+    have := Option.some.inj h; subst this
+    refine ⟨?_, hw⟩
+    by_cases hc : (changed os row as).contains a = true
+    · simp only [hc, hw, Bool.not_false, Bool.and_self, if_true]
+    · simp only [hc, Bool.false_and, Bool.false_eq_true, if_false]
+      have hnm : a ∉ changed os row as := by simpa using hc
+      have : ¬ ((os.dbvals a != some (row a)) = true) := fun hne => hnm (List.mem_filter.mpr ⟨ha, hne⟩)
+      rw [hv]; simpa using this
+
+theorem fetchRow_frame (σ σ' : State) (s : Sid) (o' : Obj) (as : List Attr) (fu : Bool)
+    (h : fetchRow σ s o' as fu = some σ') :
+    (σ'.sess s).pend = (σ.sess s).pend ∧ σ'.store = σ.store ∧ ∀ o, o ≠ o' → (σ'.sess s).objs o = (σ.sess s).objs o := by
+  unfold fetchRow at h
+  simp only at h
+  split at h
+  · simp at h
+  · have := Option.some.inj h; subst this
+    refine ⟨by simp [State.withSess], rfl, fun o ho => by simp [State.withSess, upd_other _ _ _ _ ho]⟩
+
+theorem fetchRow_val (cfg : Cfg) (σ σ' : State) (s : Sid) (o : Obj) (as : List Attr) (fu : Bool) (a : Attr)
+    (h : fetchRow σ s o as fu = some σ') (hi : Inv cfg σ) (ha : a ∈ as) (hw : ((σ.sess s).objs o).wbits a = false) :
+    ((σ'.sess s).objs o).vals a = some (view σ s o a) ∧ ((σ'.sess s).objs o).wbits a = false := by
+  have hV := ((hi.1 s).1 o a).1 hw
+  unfold fetchRow at h
+  simp only at h
+  split at h
+  · simp at h
+  · rename_i os2 hds
+    have := Option.some.inj h; subst this
+    simp only [State.withSess, upd_same]
+    refine dbSet_val _ os2 _ as a hds ha ?_ ?_
+    · split
+      · exact hw
+      · rfl
+    · split
+      · exact hV
+      · rfl
+
+theorem fetchRows_val (cfg : Cfg) (s : Sid) (as : List Attr) (fu : Bool) (o : Obj) (a : Attr) (v : Val) (ha : a ∈ as) (l : List Obj) :
+    ∀ σ σ2, fetchRows s as fu l σ = some σ2 → Inv cfg σ → ((σ.sess s).objs o).wbits a = false → view σ s o a = v →
+      (o ∈ l ∨ ((σ.sess s).objs o).vals a = some v) →
+      ((σ2.sess s).objs o).vals a = some v ∧ ((σ2.sess s).objs o).wbits a = false := by
+  induction l with
+  | nil =>
+    intro σ σ2 hf _ hw _ hor
+    simp [fetchRows] at hf; subst hf
+    rcases hor with h | h
+    · simp at h
+    · exact ⟨h, hw⟩
+  | cons o' r ih =>
+    intro σ σ2 hf hi hw hview hor
+    simp only [fetchRows] at hf
+    split at hf
+    · simp at hf
+    · rename_i σ' hf1
+      have hfr := fetchRow_frame σ σ' s o' as fu hf1
+      have hi' := Inv_fetchRow cfg σ σ' s o' as fu hf1 hi
+      have hview' : view σ' s o a = v := by rw [view_congr σ σ' s o a hfr.1 hfr.2.1]; exact hview
+      by_cases ho : o' = o
+      · subst ho
+        have hv := fetchRow_val cfg σ σ' s o' as fu a hf1 hi ha hw
+        exact ih σ' σ2 hf hi' hv.2 hview' (Or.inr (by rw [hv.1, hview]))
+      · have hsame := hfr.2.2 o (fun h => ho h.symm)
+        refine ih σ' σ2 hf hi' (by rw [hsame]; exact hw) hview' ?_
+        rcases hor with h | h
+        · rcases List.mem_cons.mp h with h | h
+          · exact absurd h.symm ho
+          · exact Or.inl h
+        · exact Or.inr (by rw [hsame]; exact h)
+
+theorem markOne_obs (cfg : Cfg) (σ : State) (s : Sid) (o o' : Obj) (a : Attr) (v : Val) (hvol : cfg.volatile a = false)
+    (hv : ((σ.sess s).objs o).vals a = some v) (hw : ((σ.sess s).objs o).wbits a = false) :
+    ((((markOne cfg σ s o' a).sess s).objs o).vals a = some v ∧ (((markOne cfg σ s o' a).sess s).objs o).wbits a = false)
+    ∧ ((o' = o ∨ ((σ.sess s).objs o).obs a = some v) → (((markOne cfg σ s o' a).sess s).objs o).obs a = some v) := by
+  unfold markOne
+  simp only
+  by_cases ho : o' = o
+  · subst ho
+    simp [hv, State.withSess, ObjSt.read, hw, hvol]
+  · have hne : o ≠ o' := fun h => ho h.symm
+    split
+    · simp only [State.withSess, upd_same, upd_other _ _ _ _ hne]
+      exact ⟨⟨hv, hw⟩, fun h => h.resolve_left ho⟩
+    · exact ⟨⟨hv, hw⟩, fun h => h.resolve_left ho⟩
+
+theorem markRows_obs (cfg : Cfg) (s : Sid) (o : Obj) (a : Attr) (v : Val) (hvol : cfg.volatile a = false) (l : List Obj) :
+    ∀ σ, ((σ.sess s).objs o).vals a = some v → ((σ.sess s).objs o).wbits a = false →
+      (o ∈ l ∨ ((σ.sess s).objs o).obs a = some v) → (((markRows cfg s a l σ).sess s).objs o).obs a = some v := by
+  induction l with
+  | nil =>
+    intro σ _ _ hor
+    rcases hor with h | h
+    · simp at h
+    · exact h
+  | cons o' r ih =>
+    intro σ hv hw hor
+    have hm := markOne_obs cfg σ s o o' a v hvol hv hw
+    refine ih _ hm.1.1 hm.1.2 ?_
+    rcases hor with h | h
+    · rcases List.mem_cons.mp h with h | h
+      · exact Or.inr (hm.2 (Or.inl h.symm))
+      · exact Or.inl h
+    · exact Or.inr (hm.2 (Or.inr h))
+
+/-- every object a criterion query returns (each row the connection sees with `a = v`) gets `v` recorded as the observation
+    of `a`, provided the session holds no unflushed assignment to it -/
+theorem select_obs (cfg : Cfg) (σ : State) (s : Sid) (a : Attr) (v : Val) (fu : Bool) (m : Option Val) (o : Obj)
+    (hi : Inv cfg σ) (h : (step cfg σ s (.select a v fu)).2.res = .ok m) (ho : o ∈ cfg.objs) (hview : view σ s o a = v)
+    (hw : ((σ.sess s).objs o).wbits a = false) (hvol : cfg.volatile a = false) (ha : a ∈ cfg.attrs) :
+    (((step cfg σ s (.select a v fu)).1.sess s).objs o).obs a = some v := by
+  simp only [step] at h ⊢
+  have hq := query_ok cfg _ s fu _ _ h
+  rw [hq] at h ⊢
+  generalize hσ1 : (ensureTxn (setImmIf (wake σ s) s fu) s).1 = σ1 at h ⊢
+  have hi1 : Inv cfg σ1 := by
+    rw [← hσ1]
+    refine Inv_ensureTxn cfg _ s ?_
+    cases fu
+    · simpa [setImmIf] using Inv_wake cfg σ s hi
+    · simpa [setImmIf] using Inv_setImmediate cfg _ s (Inv_wake cfg σ s hi)
+  have he := ensureTxn_sess (setImmIf (wake σ s) s fu) s
+  have hs := setImmIf_sess (wake σ s) s fu
+  have hk := wake_sess σ s
+  have hobjs : (σ1.sess s).objs = (σ.sess s).objs := by rw [← hσ1, he.1, hs.1, hk.1]
+  have hview1 : view σ1 s o a = v := by
+    rw [view_congr σ σ1 s o a (by rw [← hσ1, he.2.1, hs.2.1, hk.2.1]) (by rw [← hσ1, he.2.2.2.2, hs.2.2.2.2, hk.2.2.2.2])]
+    exact hview
+  have hw1 : ((σ1.sess s).objs o).wbits a = false := by rw [hobjs]; exact hw
+  unfold selectInDb at h ⊢
+  simp only at h ⊢
+  split
+  · rename_i hf; simp [hf] at h
+  · rename_i σ2 hf
+    have hmem : o ∈ cfg.objs.filter (fun o => view σ1 s o a == v) := List.mem_filter.mpr ⟨ho, by simp [hview1]⟩
+    have hsel : a ∈ selAttrs cfg a := List.mem_filter.mpr ⟨ha, by simp⟩
+    have h2 := fetchRows_val cfg s _ fu o a v hsel _ σ1 σ2 hf hi1 hw1 hview1 (Or.inl hmem)
+    exact markRows_obs cfg s o a v hvol _ σ2 h2.1 h2.2 (Or.inl hmem)
 
 end PonyVerif.Model.Occ
